@@ -13,7 +13,7 @@ from typing import Any, Dict, List, Optional, Tuple
 
 from ..cfg import cfg_of, Path
 from ..consteval import ConstEval, Unknown
-from ..flow import Sym, Lin, linform, find_calls, fpaths
+from ..flow import Sym, Lin, linform, find_calls, fpaths, allfacts
 from ..model import attr_chain, norm, walk_no_nested, FuncInfo
 from ..report import Checker
 
@@ -255,7 +255,7 @@ def run(ch: Checker) -> None:
         if p.exit_kind != 'return':
             continue
         sym = Sym(p)
-        fd = dict(p.facts())
+        fd = allfacts(p)
         packs = [(i, c) for i, st in p.stmts() for c in walk_no_nested(st) if isinstance(c, ast.Call) and attr_chain(c.func) == 'struct.pack' and len(c.args) >= 2]
         if not packs:
             continue
